@@ -33,19 +33,22 @@ META = dict(
          "try_parse (stop_on, SkipTo fail_on, lookaheads) treat it as a non-match (notany_treats_fatal_as_nonmatch, "
          "tryParse_converts_fatal); Or raises a collected fatal only when no alternative matched "
          "(or_fatal_only_if_none_matched, or_raises_fatal_when_none_matched). These are statements about the transcribed "
-         "parseImpl bodies; the tie to core.py is the correspondence run. PARTIAL: Each is outside the model (oracle only); "
+         "parseImpl bodies; the tie to core.py is the correspondence run. "
          "ANY DEPTH, as one theorem by induction over the nesting context (PPProofs/Props/C07Depth.lean; relation Path = "
-         "reflexive-transitive closure of Step, one constructor per propagating call position of the transcribed parseImpl: "
+         "reflexive-transitive closure of Step, one constructor per propagating call position of the transcribed parser: "
          "And first/later element, MatchFirst alternative after soft failures, Opt, first/later iteration of "
-         "OneOrMore/ZeroOrMore, Group/Suppress/Combine/Forward/plain ParseElementEnhance, FollowedBy, Located), for all "
-         "grammars, inputs, locations, flags and fuels: fatal_propagates_exact (the outer call fails with the inner fatal "
-         "sent through the containers' exception maps), fatal_propagates_any_depth (outer failure is fatal; class unchanged "
-         "or ParseSyntaxException when an And element behind '-' is on the path; location unchanged unless it is 0 on a "
-         "non-syntax exception, which ParseElementEnhance replaces), fatal_class_preserved_without_stop, "
-         "errorstop_any_depth (any failure, also a plain ParseException, of an element behind '-' in an And reached "
-         "through such a path surfaces at the top as ParseSyntaxException at the same location). Not covered by a Path "
-         "constructor although the code propagates there too: ignore-expressions run by preParse, the SkipTo target, the "
-         "alternative Or re-parses after its trial pass.",
+         "OneOrMore/ZeroOrMore, Group/Suppress/Combine/Forward/plain ParseElementEnhance, FollowedBy, Located, the SkipTo "
+         "target (scan and include re-parse; the code catches only ParseException/IndexError there), the "
+         "ignore-expressions run by preParse and by the repetition loop), for all grammars, inputs, locations, flags and "
+         "fuels: fatal_propagates_exact (the outer call fails with the inner fatal sent through the containers' exception "
+         "maps), fatal_propagates_any_depth (outer failure is fatal; class unchanged, or ParseSyntaxException when an And "
+         "element behind '-' is on the path; location unchanged unless it is 0 on a non-syntax exception, which "
+         "ParseElementEnhance replaces), fatal_class_preserved_without_stop, errorstop_any_depth (any failure, also a plain "
+         "ParseException, of an element behind '-' in an And reached through such a path surfaces at the top as "
+         "ParseSyntaxException at the same location); step_fail is the single level. PARTIAL: Each is outside the model "
+         "(oracle only); not covered by a Path constructor although the code propagates there too: the alternative Or "
+         "re-parses after its trial pass, the ignore-expressions of the pre-parse that Or and StringStart do inside "
+         "parseImpl.",
     note="Trusted: Lean kernel; axioms propext/Classical.choice/Quot.sound; the parse model (validated differentially "
          "on every run, node attributes extracted from the live objects); the exception hierarchy "
          "(ParseSyntaxException <= ParseFatalException, ParseFatalException not <= ParseException) is re-checked against the "
